@@ -67,6 +67,7 @@ def run(ctx):
         raise vf.Inconclusive("driver died (exit %d) and the recorded events show no violation" % p.returncode)
     # ImplSpec binding; scenarios with a stuck call cannot be behaviours of the repaired model and are skipped after reporting
     bad = {e["sc"] for e in events if e["ev"] in ("stuck", "wstuck")}
+    bad |= {e["sc"] for e in events if e["ev"] == "start" and e.get("kind") == "chain"}    # workers with a second blocking point: not Pause.tla's workers
     ipath = os.path.join(ctx.scratch, "impl.ndjson")
     vf.write_ndjson(ipath, [e for e in events if e.get("sc") not in bad])
     impl_ok = True
@@ -86,8 +87,8 @@ def run(ctx):
         import subprocess
         from c01 import pipeline
         ctx.build_harness(("zeno-verif",))
-        cases = [(2, 3, "resume"), (1, 2, "stop"), (3, 5, "stop")] if quick else \
-                [(w, k, m) for w in (1, 2, 3) for k in (1, 3, 8) for m in ("resume", "stop")]
+        cases = [(2, 3, "resume"), (1, 2, "stop"), (3, 5, "stop"), (2, 2, "diskstop")] if quick else \
+                [(w, k, m) for w in (1, 2, 3) for k in (1, 3, 8) for m in ("resume", "stop", "diskstop")]
         procs = [(c, pipeline(ctx, "p%d-%d-%s" % c, "c14", list(c))) for c in cases]
         for c, (p, t, d) in procs:
             try:
